@@ -40,7 +40,9 @@ type Sub struct {
 	OnSubscribe  func(topic string)
 	OnClose      func()
 	OnCloseStart func()
-	Buffer       int
+	// BeforeClose, if set, is called at the very beginning of Close, before the subscriber counts as closed
+	BeforeClose func()
+	Buffer      int
 	// Drain makes Close wait (bounded by DrainBound) until every message handed to a consumer has been
 	// settled before the output channels are closed -- a subscriber that drains its in-flight messages.
 	// IgnoreCtx: subscriptions end only with Close(), not with their context (a source that keeps handing over for a while)
@@ -161,6 +163,9 @@ func (s *Sub) Emit(topic string, msg *message.Message) bool {
 }
 
 func (s *Sub) Close() error {
+	if fn := s.BeforeClose; fn != nil {
+		fn()
+	}
 	atomic.AddInt32(&s.closeCalls, 1)
 	s.mu.Lock()
 	first := !s.closed
